@@ -74,6 +74,19 @@ CLAIMED["C14"] = dict(
    note="Reference codec checked against the RFC 4648 test vectors on every run.",
    design="§3 C14")
 
+CLAIMED["C05"] = dict(
+   technique="property-based testing: generated command streams -> encoder -> independent ECMA-48/xterm parser and interpreter (differential against the commanded operations), SGR judged by a reference SGR state machine from arbitrary prior states",
+   level="exploration",
+   text="Streams of 1-9 commands (every variant, boundary-biased numerics incl. i32::MIN/MAX and 0, all faces and face modifications) under 3 colour depths x kitty keyboard on/off; output must parse into complete self-contained sequences whose interpreted operations equal the commanded ones, also when parsed inside the stream.",
+   note="Interpreter conventions (0/missing = 1 for counts; SGR tables) are the trusted base in refvt.rs/refsgr.rs. Which palette entry is selected at reduced depth is left to C20.",
+   design="§3 C05")
+CLAIMED["C06"] = dict(
+   technique="property-based testing: round trip (encoder -> command decoder) under generated chunkings + model-based check of the escape-sequence cell writer against a reference SGR state machine",
+   level="exploration",
+   text="(a) faces, face modifications and characters encoded in true colour must be read back unchanged by the command decoder under three chunkings; (b) histories of SGR sequences in standard spellings and text written through tty_writer must yield cells whose faces follow SGR semantics from a generated initial face.",
+   note="Runs in a worker process (embeds the command decoder). Codes the record cannot express are outside the domain.",
+   design="§3 C06")
+
 NOT_APPLICABLE = {}
 
 def main():
